@@ -79,12 +79,21 @@ def applyEvsR (cfg : RCfg) : RSt → List Ev → Option RSt
 inductive RStep
   | cont (rst : RSt)
   | done (o : Outcome) (rst : RSt)
+  | crash (rst : RSt)   -- `start()` found no result for a predecessor's job (LazyField._get_value raises): the workflow job fails
   | bad
 
 def RStep.state? : RStep → Option RSt
   | .cont r => some r
   | .done _ r => some r
+  | .crash r => some r
   | .bad => none
+
+/-- `start()` resolves the lazy inputs of a node from the result files of its predecessors' jobs.  A predecessor that
+    was taken as done from an OLD result which its re-execution has meanwhile deleted (and not yet replaced) has no
+    result: `_get_value` raises and the submission ends.  (`ns0` / `ns1`: tables before / after the poll.) -/
+def lostInput (wf : Wf) (v : World) (ns0 ns1 : NSMap) (sorted : List NodeId) : Bool :=
+  sorted.any (fun n => (ns0.get n).blk.isNone && (ns1.get n).blk.isSome && !(ns1.get n).unrunnable &&
+    (wf.preds n).any (fun p => (ns1.get p).cks.any (fun c => v c != .ok)))
 
 /-- the loop's state with the disk as the loop reads it -/
 def seen (cfg : RCfg) (rst : RSt) : St := { rst.st with w := view cfg rst.st.w }
@@ -94,7 +103,9 @@ def back (rst : RSt) (st' : St) : RSt := { rst with st := { st' with w := rst.st
 /-- one poll, the loop head and one dispatch; the loop never writes the disk -/
 def pollStepR (wf : Wf) (k : Option Nat) (sorted : List NodeId) (cfg : RCfg) (rst : RSt) : RStep :=
   let wfd := diskWf wf cfg rst.ended
-  match afterPoll wfd k sorted (doPoll wfd k sorted (seen cfg rst)) with
+  let st1 := doPoll wfd k sorted (seen cfg rst)
+  if lostInput wf (view cfg rst.st.w) rst.st.ns st1.ns sorted then .crash (back rst st1) else
+  match afterPoll wfd k sorted st1 with
   | .cont st' => .cont (back rst st')
   | .done o st' => .done o (back rst st')
   | .bad => .bad
@@ -381,6 +392,9 @@ theorem rinv_pollStepR {wf : Wf} {k : Option Nat} {sorted : List NodeId} {cfg : 
     {rst' : RSt} (h : (pollStepR wf k sorted cfg rst).state? = some rst') : RInv k rst' := by
   unfold pollStepR at h
   simp only at h
+  split at h
+  · simp only [RStep.state?, Option.some.injEq] at h; subst h
+    exact rinv_back hi (finv_congr hi.f rfl rfl) (fun _ h => h) (fun _ h => h)
   have key : ∀ st', (afterPoll (diskWf wf cfg rst.ended) k sorted
       (doPoll (diskWf wf cfg rst.ended) k sorted (seen cfg rst))).state? = some st' → RInv k (back rst st') := by
     intro st' hst
@@ -417,6 +431,7 @@ theorem rinv_runFromR {wf : Wf} {k : Option Nat} {sorted : List NodeId} {cfg : R
     simp only [runFromR] at h
     exact rinv_runFromR rest _ (fun r' hr' => rinv_roundR (hs rst rfl) mv hr') r h
   | _ :: _, .done o rst, hs, r, h => by simp only [runFromR] at h; exact hs r h
+  | _ :: _, .crash rst, hs, r, h => by simp only [runFromR] at h; exact hs r h
   | _ :: _, .bad, _, r, h => by simp [runFromR, RStep.state?] at h
 
 theorem rinv_runAsyncR {wf : Wf} {k : Option Nat} {sorted : List NodeId} {cfg : RCfg} {w0 : World}
